@@ -9,7 +9,7 @@ import json, os, re, shutil, subprocess, sys, time, random
 ROOT = os.path.dirname(os.path.dirname(os.path.abspath(__file__)))
 REPO = os.environ.get("VERIF_REPO", "/repo")
 SPEC = os.path.join(ROOT, "spec")
-BUILD = os.path.join(ROOT, "build")
+BUILD = os.path.abspath(os.environ.get("VERIF_BUILD", os.path.join(ROOT, "build")))
 TLA_CP = "/opt/veriftools/tla/tla2tools.jar:/opt/veriftools/tla/CommunityModules-deps.jar"
 NCPU = os.cpu_count() or 4
 
@@ -40,8 +40,8 @@ def sh(cmd, timeout=None, env=None, cwd=None, check=False):
 def build(*runners):
     """(Re)build libCrab.a from /repo's working tree plus the named harness runners."""
     t0 = time.time()
-    targets = " ".join("build/bin/" + r for r in runners)
-    rc, out = sh("make -s -j%d REPO=%s %s" % (NCPU, REPO, targets), timeout=3000)
+    targets = " ".join(os.path.join(BUILD, "bin", r) for r in runners)
+    rc, out = sh("make -s -j%d REPO=%s B=%s %s" % (NCPU, REPO, BUILD, targets), timeout=3000)
     if rc != 0:
         raise Broken("build failed:\n" + out[-6000:])
     return time.time() - t0
